@@ -39,7 +39,13 @@ REGRESSIONS = (
      "Content-Length: -1 -> rfile.read(-1) blocks until the peer closes"),
     ("ListenerHttpSingleThread.cfg", "InvNeverStuck",
      "server without ThreadingMixIn"),
+    ("ListenerHttpQueueNoReturn.cfg", "InvExactlyOneResponse",
+     "no `return` after the queue.Full error response (bounded queue, "
+     "callback held)"),
 )
+
+# quick tier: how many of the TLC-emitted bounded-queue scripts are replayed
+QUEUE_SCRIPTS_QUICK = 72
 
 
 def model_checks(ctx, quick):
@@ -58,6 +64,28 @@ def model_checks(ctx, quick):
         ctx.tlc("ListenerHttp", "ListenerHttpSeqBig.cfg", timeout=3000,
                 label="all sequences of 4 requests over one representative "
                 "per pipeline exit (24)")
+    # bounded indication queue + a tester that may hold the callback; TLC
+    # prints the tester scripts that force the queue.Full branch
+    qruns = [("ListenerHttpQueue.cfg", 1,
+              "max_ind_queue_size=1, callback may be held: all histories of "
+              "4 requests over the queue alphabet (6)")]
+    if not quick:
+        qruns.append(("ListenerHttpQueue2.cfg", 2,
+                      "max_ind_queue_size=2, callback may be held: all "
+                      "histories of 5 requests over the small queue "
+                      "alphabet (4)"))
+    scripts = []
+    for cfg, qcap, label in qruns:
+        qr = ctx.tlc("ListenerHttp", cfg, timeout=3000, label=label)
+        seen = set()
+        for p in qr.printed("SCR"):
+            steps = tuple((op, tuple(t)) for op, t in vlib.unset(p[1]))
+            if steps not in seen:
+                seen.add(steps)
+                scripts.append((qcap, steps))
+        if not seen:
+            raise vlib.MachineryError("%s printed no tester script" % cfg)
+    ctx.extra["queue_full_scripts_from_tlc"] = len(scripts)
     sens = []
     for cfg, inv, what in REGRESSIONS:
         rr = ctx.tlc("ListenerHttp", cfg, must_pass=False, count=False,
@@ -67,7 +95,7 @@ def model_checks(ctx, quick):
                                       (cfg, inv, rr.violated))
         sens.append("%s violates %s as required (%s)" % (cfg, inv, what))
     ctx.extra["sensitivity"] = sens
-    return r
+    return scripts
 
 
 def tlc_classes(ctx):
@@ -104,10 +132,36 @@ def random_class(rng, p):
     return c
 
 
-def plan(ctx, quick):
+def plan_queue(ctx, quick, scripts):
+    """TLC-emitted tester scripts (request classes, block, release) that force
+    the queue.Full branch in the model -> histories on a listener with that
+    max_ind_queue_size.  Quick tier: a seeded sample, two thirds of it from
+    the scripts without a request that makes the server wait (those fill the
+    queue of the real listener deterministically)."""
+    scripts = sorted(scripts)
+    if quick and len(scripts) > QUEUE_SCRIPTS_QUICK:
+        plain = [x for x in scripts
+                 if all(op != "req" or H.cls_of(t)["clen"] == "ok"
+                        for op, t in x[1])]
+        other = [x for x in scripts if x not in set(plain)]
+        n1 = min(len(plain), QUEUE_SCRIPTS_QUICK * 2 // 3)
+        pick = ctx.rng.sample(plain, n1)
+        pick += ctx.rng.sample(other, min(len(other),
+                                          QUEUE_SCRIPTS_QUICK - n1))
+        scripts = sorted(pick)
+    hs = []
+    for qcap, steps in scripts:
+        st = H.normalise_script(
+            [(op, H.cls_of(t)) for op, t in steps])
+        for _ in range(1 if quick else 3):
+            hs.append(("tlc-queue-script", {"qcap": qcap, "steps": st}))
+    return hs
+
+
+def plan(ctx, quick, scripts):
     rng = ctx.rng
     one, two = tlc_classes(ctx)
-    hs = []
+    hs = plan_queue(ctx, quick, scripts)
     for c in one:
         for _ in range(4 if quick else 30):
             hs.append(("tlc-class1", [c, dict(H.VALID)]))
@@ -157,25 +211,46 @@ def drive(ctx, hs, nworkers):
 
     def work(w):
         rng = random.Random("%d/%d" % (ctx.seed, w))
-        box = H.Box().start()
-        stats["listeners"] += 1
+        boxes = {}       # max_ind_queue_size (0 = library default) -> Box
+
+        def fresh(qcap):
+            old = boxes.pop(qcap, None)
+            if old is not None:
+                old.stop()
+                if old.stop_error:
+                    stats["stop_errors"].append(old.stop_error)
+                stats["restarts"] += 1
+            boxes[qcap] = H.Box(qcap).start()
+            stats["listeners"] += 1
+            return boxes[qcap]
+
         try:
             for i in range(w, len(hs), nworkers):
-                h = H.run_history(box, rng, hs[i][1])
+                job = hs[i][1]
+                if isinstance(job, dict):
+                    # bounded queue: the history starts on a listener whose
+                    # queue the tester has seen empty
+                    box = boxes.get(job["qcap"]) or fresh(job["qcap"])
+                    if not box.seen_drained(H.T_DELIVER):
+                        box = fresh(job["qcap"])
+                    h = H.run_history(box, rng, None, steps=job["steps"],
+                                      drain_wait=H.T_DELIVER)
+                else:
+                    box = boxes.get(0) or fresh(0)
+                    h = H.run_history(box, rng, job)
                 results[i] = h
                 last = h.events[-2]["obs"]
-                if last["status"] != 200 or not h.events[-1]["alive"]["server"]:
-                    box.stop()
-                    box = H.Box().start()
-                    stats["listeners"] += 1
-                    stats["restarts"] += 1
+                if last["status"] != 200 or last["leaf"] == ["ERROR"] or \
+                        not h.events[-1]["alive"]["server"]:
+                    fresh(box.want_qcap)
         except Exception:  # noqa
             import traceback
             errors.append(traceback.format_exc())
         finally:
-            box.stop()
-            if box.stop_error:
-                stats["stop_errors"].append(box.stop_error)
+            for box in boxes.values():
+                box.stop()
+                if box.stop_error:
+                    stats["stop_errors"].append(box.stop_error)
 
     ts = [threading.Thread(target=work, args=(w,)) for w in range(nworkers)]
     t0 = time.time()
@@ -192,6 +267,9 @@ def drive(ctx, hs, nworkers):
 def blame(ev, prev):
     c, o = ev["cls"], ev["obs"]
     dev = H.deviations(c)
+    if 0 < ev["env"]["qcap"] < 100 and o["outcome"] == "response" and \
+            (not dev or dev == ["body"] and c["body"] == "dupParam"):
+        return "bounded-queue:status=%d" % o["status"]
     if not dev:
         return "valid-after:" + (prev["obs"]["outcome"] if prev else "")
     if o["outcome"] != "response":
@@ -226,8 +304,24 @@ def judge(ctx, kinds, hists):
             ", ".join(sorted(v["clauses"]))))
         if info.get("split_header"):
             what += "; header field: %r" % info["split_header"][:200]
+        if ev["env"]["qcap"] < 100:
+            what += ("; listener with max_ind_queue_size=%d, tester script: "
+                     "%s" % (ev["env"]["qcap"], " ".join(
+                         op if op != "req" else
+                         "req(%s)" % (",".join("%s=%s" % (d, c[d]) for d in
+                                               H.deviations(c)) or "VALID")
+                         for op, c in h.steps)))
+        # the script up to and including the failing request
+        nreq, upto = 0, []
+        for op, c in h.steps:
+            if op == "req":
+                nreq += 1
+                if nreq > i + 1:
+                    break
+            upto.append([op, c])
         ctx.report(sig, what, {
             "source": kind,
+            "qcap": h.box_qcap, "steps": upto,
             "classes": [e["cls"] for e in h.events[:i + 1]],
             "requests_b64": [
                 {"raw": base64.b64encode(
@@ -256,8 +350,8 @@ def collect_drift(ctx):
 
 def run(ctx):
     quick = ctx.tier == "quick"
-    model_checks(ctx, quick)
-    hs = plan(ctx, quick)
+    scripts = model_checks(ctx, quick)
+    hs = plan(ctx, quick, scripts)
     hists, stats = drive(ctx, hs, 6 if quick else 8)
     kinds = [k for k, _ in hs]
     judge(ctx, kinds, hists)
@@ -265,17 +359,30 @@ def run(ctx):
     # evidence
     by_kind, outcomes, cells = {}, {}, set()
     nreq = 0
+    qfull = {"histories_with_a_refused_indication": 0,
+             "indications_refused_with_ERROR": 0,
+             "indications_accepted_on_bounded_listener": 0}
     for k, h in zip(kinds, hists):
         by_kind[k] = by_kind.get(k, 0) + 1
+        refused = 0
         for e in h.events:
             if e["kind"] != "req":
                 continue
             nreq += 1
             o = e["obs"]
+            if e["env"]["qcap"] < 100 and o["status"] == 200 and \
+                    e["cls"]["body"] in ("validExport", "dupParam"):
+                if o["leaf"] == ["ERROR"]:
+                    refused += 1
+                else:
+                    qfull["indications_accepted_on_bounded_listener"] += 1
             key = o["outcome"] if o["outcome"] != "response" \
                 else "status %d" % o["status"]
             outcomes[key] = outcomes.get(key, 0) + 1
             cells.add(H.tup_of(e["cls"]))
+        qfull["indications_refused_with_ERROR"] += refused
+        qfull["histories_with_a_refused_indication"] += 1 if refused else 0
+    ctx.extra["queue_full_observed"] = qfull
     ctx.extra["histories_by_source"] = by_kind
     ctx.extra["requests_sent"] = nreq
     ctx.extra["distinct_request_classes_driven"] = len(cells)
@@ -306,8 +413,16 @@ def run(ctx):
         "(2^31..2^62) are not driven (they make the listener process "
         "allocate); 'huge' means >= 2^63",
         "message ids contain no TAB/CR/LF (attribute-value normalisation is "
-        "C01's subject); indication queue is the default size (no 'queue "
-        "full' answers)",
+        "C01's subject)",
+        "queue-full answers: a valid indication may be refused with an "
+        "export ERROR only when the listener's queue capacity is reached by "
+        "the requests since the tester last SAW the queue drained (callback "
+        "not held, every accepted indication in the callback log, listener "
+        "reports an empty queue: positive evidence, read-only); driven on "
+        "listeners with max_ind_queue_size 1 (thorough: 1 and 2) and a "
+        "callback the tester holds, following the tester scripts TLC emits "
+        "from the bounded-queue model; all other histories use the default "
+        "queue size (5000), which a history never reaches",
         "'waiting' is positive evidence: the handler thread of that "
         "connection is blocked in a socket read with all request bytes sent; "
         "'hang' = no byte for %.0f s" % H.T_HANG,
@@ -321,7 +436,9 @@ def run(ctx):
 
 def replay(rep):
     case = rep["case"]
-    box = H.Box().start()
+    qcap = case.get("qcap", 0)
+    steps = [(op, c) for op, c in case["steps"]] if case.get("steps") else None
+    box = H.Box(qcap).start()
     try:
         reqs = []
         for cls, x in zip(case["classes"], case["requests_b64"]):
@@ -331,7 +448,8 @@ def replay(rep):
             r.marker, r.msgid = x["marker"], x["msgid"]
             r.has_msgid, r.verb = x["has_msgid"], x["verb"]
             reqs.append(r)
-        h = H.run_history(box, random.Random(0), case["classes"], reqs=reqs)
+        h = H.run_history(box, random.Random(0), case["classes"], reqs=reqs,
+                          steps=steps, drain_wait=H.T_DELIVER if qcap else 0.0)
     finally:
         box.stop()
     for e, i in zip(h.events, h.info):
